@@ -32,8 +32,9 @@ def gen_case(rng, ctx):
     base = floor_ms(rand_instant(rng, 10**12, MAX_US - 40 * DAY_US))
     if rng.random() < 0.03:
         # the first hours of 1970 as clocks east of Greenwich show them: instants just before the Unix epoch
-        base = floor_ms(-rng.randrange(0, 14 * 3600 * 10**6))
         unit = rng.choice([1000, 10**6, 60 * 10**6, 3600 * 10**6])
+        # half of them on a grid that contains the epoch itself (an instant whose number is 0)
+        base = -rng.randrange(0, 25) * unit if rng.random() < 0.5 else floor_ms(-rng.randrange(0, 14 * 3600 * 10**6))
     n = rng.randrange(1, 13)
     evs = []
     for i in range(n):
